@@ -1,6 +1,7 @@
 package main
 
 import (
+	"go/token"
 	"go/types"
 	"strings"
 
@@ -405,13 +406,32 @@ func c14r3(r *R) {
 	on := r.Ob("C14.R3", "new-validates-initial-pair").At(nw.Pos())
 	rc := callsIn(nw, "(*certwatcher.CertWatcher).ReadCertificate")
 	if on.Check(len(rc) == 1, "New does not load the initial pair") {
-		ok := false
-		eachInstr(nw, func(i ssa.Instruction) {
-			if ret, isR := i.(*ssa.Return); isR && guardErrOn(c.guardStrs(i.Block()), "ReadCertificate(") {
-				ok = c.Expr(ret.Results[0]) == "nil" && c.Expr(ret.Results[1]) != "nil"
+		// whenever the load failed New returns (nil, a non-nil error) — stated over return alternatives, so an error
+		// funnelled through a helper and tested once reads like two tests
+		failed := func(lits []string) bool {
+			for _, l := range lits {
+				if pos, a, op, b, okp := parseRelLit(l); okp && strings.Contains(a+b, "ReadCertificate(") && (a == "nil" || b == "nil") {
+					if (op == "!=") == pos {
+						return true
+					}
+				}
 			}
-		})
-		on.Check(ok, "New does not return an error when the initial pair cannot be loaded")
+			return false
+		}
+		n := 0
+		for _, ra := range c.returnAlts(nw, 0) {
+			if failed(ra.Lits) {
+				n++
+				on.AtI(ra.Ret).Check(ra.E == "nil", "New returns the watcher %s although the initial pair could not be loaded", ra.E)
+			}
+		}
+		for _, ra := range c.returnAlts(nw, 1) {
+			if failed(ra.Lits) {
+				n++
+				on.AtI(ra.Ret).Check(ra.E != "nil", "New returns a nil error although the initial pair could not be loaded")
+			}
+		}
+		on.Check(n >= 2, "New does not return an error when the initial pair cannot be loaded")
 	}
 }
 
@@ -438,9 +458,38 @@ func c14r4(r *R) {
 	if o2.Check(cfg != nil, "defaultTLSConfig builds no tls.Config literal") {
 		f := complitFields(cfg)
 		g := f["GetCertificate"]
-		o2.Check(g != nil && c.Expr(g) == "closure:(*certwatcher.CertWatcher).GetCertificate", "tls.Config.GetCertificate is %s, want the watcher's bound method", exprOrNil(c, g))
+		// the watcher's bound method, or a function literal that only forwards to it (`func(h) { return cw.GetCertificate(h) }`)
+		fwd := false
 		if mc, ok := g.(*ssa.MakeClosure); ok && len(mc.Bindings) == 1 {
-			o2.Check(c.Expr(mc.Bindings[0]) == "p0", "GetCertificate is bound to %s, not to the watcher passed in", c.Expr(mc.Bindings[0]))
+			if lit, ok := mc.Fn.(*ssa.Function); ok && lit.Parent() == tc && len(lit.Blocks) == 1 && len(lit.Params) == 1 {
+				var call *ssa.Call
+				n := 0
+				for _, i := range lit.Blocks[0].Instrs {
+					if cc, ok := i.(*ssa.Call); ok {
+						n++
+						call = cc
+					}
+				}
+				if n == 1 && calleeName(&call.Call) == "(*certwatcher.CertWatcher).GetCertificate" && len(call.Call.Args) == 2 {
+					rv := call.Call.Args[0]
+					if u, ok := rv.(*ssa.UnOp); ok && u.Op == token.MUL {
+						rv = u.X // the captured variable is a cell
+					}
+					_, recvIsFree := rv.(*ssa.FreeVar)
+					ret, _ := lit.Blocks[0].Instrs[len(lit.Blocks[0].Instrs)-1].(*ssa.Return)
+					fwd = recvIsFree && call.Call.Args[1] == ssa.Value(lit.Params[0]) && ret != nil && len(ret.Results) == 2 && flowsToReturn(call)
+				}
+			}
+		}
+		o2.Check(g != nil && (fwd || c.Expr(g) == "closure:(*certwatcher.CertWatcher).GetCertificate"), "tls.Config.GetCertificate is %s, want the watcher's bound method", exprOrNil(c, g))
+		if mc, ok := g.(*ssa.MakeClosure); ok && len(mc.Bindings) == 1 {
+			bound := mc.Bindings[0]
+			if cell, ok := bound.(*ssa.Alloc); ok {
+				if us := uniqueStore(cell); us != nil {
+					bound = us.Val // the parameter's cell, written once on entry
+				}
+			}
+			o2.Check(c.Expr(bound) == "p0", "GetCertificate is bound to %s, not to the watcher passed in", c.Expr(bound))
 		}
 		for _, bad := range []string{"Certificates", "NameToCertificate", "GetConfigForClient"} {
 			o2.Check(f[bad] == nil, "tls.Config.%s is set: crypto/tls would then serve a static certificate (for clients without SNI) or bypass the watcher, and reloads would not reach those handshakes", bad)
